@@ -6,7 +6,10 @@ R5.1 ownership: every array that get_emodulus mutates in place (``-=``,
      allocation on every definition that reaches it: ``np.array(..,
      copy=copy)`` with the documented default True, the result of load_lut
      (which copies tuple input and loads files anew, uncached), the result
-     of ``scale_feature(.., inplace=False)``, the result of griddata.
+     of ``scale_feature(.., inplace=False)``, the result of griddata.  A
+     conversion without copy (np.asarray) and a helper that can return its
+     argument are aliases: they are as fresh as their argument at the call
+     site (decided with reaching definitions on the CFG).
 R5.2 scale laws as monomials: scale_area_um ~ w_out^2 w_in^-2, scale_volume
      ~ w_out^3 w_in^-3 (exponent = length dimension of the unit declared in
      load_mtext), scale_emodulus ~ Q_out Q_in^-1 eta_out eta_in^-1 w_in^3
@@ -30,6 +33,11 @@ R5.7 per-medium material constants of the viscosity models (the literals
      distinct; a literal that occurs twice in one branch occurs twice in
      every branch (same quantity).  This is a consistency condition on the
      parameter tables, not a comparison with the cited publications.
+R5.8 medium aliases: the module-level construction of SAME_MEDIA /
+     ALIAS_MEDIA / KNOWN_MEDIA in viscosity.py is folded by interpretation;
+     every listed spelling and its lower-case form resolves to the medium it
+     is listed under, no alias maps elsewhere, KNOWN_MEDIA is the set of
+     resolvable names, get_viscosity resolves before dispatching.
 R5.5 interpolation: griddata(method='linear') without fill_value/rescale on
      (column 0, column 1) -> column 2; LUT column and data are normalised by
      the same number, the column maximum taken after scaling; extrapolation
@@ -88,6 +96,7 @@ class Fresh:
         self.why = []
         self.chain = []     # (rel, func) consulted
         self._cfg = {}
+        self.frames = []    # argument bindings of the helpers being read
 
     def resolve(self, rel, name):
         """(rel, FunctionDef) of a function called by plain name in `rel`"""
@@ -168,8 +177,10 @@ class Fresh:
             raise AnalysisError(f"{func.name}: statement not in the CFG")
 
         def is_def(n):
+            # (the statement under examination reads the name before it
+            # binds it: it is entered, not avoided)
             return n.ast is not None and id(n.ast) in dstmts and n.kind in (
-                "stmt", "for", "with_enter")
+                "stmt", "for", "with_enter") and n.id not in target
         out = []
         r = cfg.reach([cfg.entry], avoid_node=is_def, include_sources=True)
         if target & r:
@@ -216,10 +227,29 @@ class Fresh:
             if site is None:
                 raise AnalysisError("freshness: no site")
             ds = self.reaching(func, e.id, site)
+            if not ds:
+                raise AnalysisError(f"{func.name}: no definition of "
+                                    f"`{e.id}` reaches `{short(site, 30)}`")
             ok = True
             for st, v, i in ds:
                 if st == "entry":
-                    if e.id in params:
+                    if e.id in params and self.frames and e.id in \
+                            self.frames[-1] and self.frames[-1][e.id][4] \
+                            is not None:
+                        fr = self.frames.pop()
+                        try:
+                            r_, f_, a_, env_, site_ = fr[e.id]
+                            n0 = len(self.why)
+                            if not self.expr(r_, f_, a_, env_, None,
+                                             depth + 1, site_):
+                                self.why.insert(
+                                    n0, f"{func.name} can return its "
+                                    f"argument `{e.id}` = "
+                                    f"`{short(a_, 25)}`")
+                                ok = False
+                        finally:
+                            self.frames.append(fr)
+                    elif e.id in params:
                         self.why.append(f"`{e.id}` is the caller's argument")
                     else:
                         self.why.append(
@@ -242,20 +272,29 @@ class Fresh:
 
     def call(self, rel, func, c, env, idx, depth):
         n = call_name(c) or ""
-        if n in ("np.array", "numpy.array", "np.asarray") and idx is None:
+        site = c
+        while site is not None and not isinstance(site, ast.stmt):
+            site = getattr(site, "parent", None)
+        if n in ("np.array", "numpy.array", "np.asarray",
+                 "np.ascontiguousarray", "np.atleast_1d") and idx is None:
             cp = kwarg(c, "copy")
-            if n.endswith("asarray"):
-                self.why.append(f"`{short(c, 40)}` does not copy")
-                return False
-            if cp is None:
-                return True
-            v = self.boolv(cp, env)
+            v = self.boolv(cp, env) if cp is not None else True
+            if not n.endswith(".array"):
+                v = False
             if v is True:
                 return True
             if v is False:
-                self.why.append(f"`{short(c, 40)}` with copy evaluating to "
-                                "False aliases its argument")
-                return False
+                # no copy: the result may be the argument itself – it is as
+                # fresh as the argument
+                if not c.args or site is None:
+                    self.why.append(f"`{short(c, 40)}` does not copy")
+                    return False
+                n0 = len(self.why)
+                ok = self.expr(rel, func, c.args[0], env, None, depth + 1,
+                               site)
+                if not ok:
+                    self.why.insert(n0, f"`{short(c, 40)}` does not copy")
+                return ok
             self.why.append(f"copy flag of `{short(c, 40)}` is not decided")
             return False
         if n in ALLOCATORS and idx is None:
@@ -314,12 +353,25 @@ class Fresh:
         if not rets:
             self.why.append(f"{f2.name} returns nothing")
             return False
-        ok = True
-        for r in rets:
-            if dead_under(r, f2, env2, self.boolv):
-                continue
-            if not self.expr(r2, f2, r.value, env2, idx, depth + 1, r):
-                ok = False
+        # a helper that can return (an alias of) its argument: the result
+        # is as fresh as the argument at the call site
+        frame = {}
+        for i, a in enumerate(c.args):
+            if i < len(params) and not isinstance(a, ast.Starred):
+                frame[params[i]] = (rel, func, a, env, site)
+        for kw in c.keywords:
+            if kw.arg is not None:
+                frame[kw.arg] = (rel, func, kw.value, env, site)
+        self.frames.append(frame)
+        try:
+            ok = True
+            for r in rets:
+                if dead_under(r, f2, env2, self.boolv):
+                    continue
+                if not self.expr(r2, f2, r.value, env2, idx, depth + 1, r):
+                    ok = False
+        finally:
+            self.frames.pop()
         return ok
 
 
@@ -885,9 +937,15 @@ def law_of(ctx, repo, fname, first_param_feature, want):
     f = repo.func(SCALE, fname)
     params = [a.arg for a in f.args.args]
     rets = [r for r in walk(f) if isinstance(r, ast.Return)]
-    if len(rets) != 1 or not isinstance(rets[0].value, ast.Name):
+    augs = {txt(n.target) for n in walk(f) if isinstance(n, ast.AugAssign)}
+    main = [r for r in rets if isinstance(r.value, ast.Name)
+            and r.value.id in augs]
+    if len(main) != 1 or f.body[-1] is not main[0]:
         raise AnalysisError(f"{fname}: return shape")
-    rv = rets[0].value.id
+    # other returns are early exits (a factor of one): where they may be
+    # taken is decided with the guard below, what they return by R5.1
+    early = [r for r in rets if r is not main[0]]
+    rv = main[0].value.id
     muls = [n for n in walk(f) if isinstance(n, ast.AugAssign)
             and txt(n.target) == rv]
     if len(muls) != 1 or not isinstance(muls[0].op, (ast.Mult, ast.Div)):
@@ -927,30 +985,37 @@ def law_of(ctx, repo, fname, first_param_feature, want):
            f"{fname}: `{rv}` is not np.array({params[0]}, copy=..)",
            node=ds[0] if ds else f, label=f"{fname} operand",
            nontrivial=False)
-    # guard: skipped only when the factor is 1
-    guard = None
+    # guard: skipped only when the factor is 1 – path condition of the
+    # update: enclosing tests (with polarity) and the negation of every
+    # earlier test whose branch returns
+    conds = []
     n = mul
     while n is not f:
         p = n.parent
         if isinstance(p, ast.If):
-            if guard is not None or any(n is s for s in p.orelse):
-                raise AnalysisError(f"{fname}: guard shape")
-            guard = p.test
+            conds.append((p.test, not any(n is s for s in p.orelse)))
         elif not isinstance(p, ast.FunctionDef):
             raise AnalysisError(f"{fname}: factor inside a {type(p).__name__}")
         n = p
+    for r in early:
+        q = r.parent
+        if not (isinstance(q, ast.If) and any(r is s for s in q.body)
+                and q.parent is f and not q.orelse
+                and q.lineno < mul.lineno):
+            raise AnalysisError(f"{fname}: early return shape")
+        conds.append((q.test, False))
     bad = None
-    if guard is not None:
-        g = inline_names(guard, f)
+    if conds:
         pairs = sorted({k.rsplit("_", 1)[0] for k in want})
         base = {p: 1.0 for p in params}
         base["np"] = None
         for pr in pairs:
             env = dict(base)
             env[pr + "_out"] = 2.0
-            if not mini(g, env):
-                bad = (f"a change of {pr} alone does not pass the guard "
-                       f"`{short(guard, 40)}`: the factor is skipped")
+            for test, pol in conds:
+                if bool(mini(inline_names(test, f), env)) != pol:
+                    bad = (f"a change of {pr} alone does not reach the "
+                           f"factor (`{short(test, 40)}`): it is skipped")
     ctx.ob("R5.2", bad is None,
            f"{fname}: the factor is applied whenever one of its ratios "
            "differs from 1" if bad is None else f"{fname}: {bad}",
@@ -1210,8 +1275,12 @@ def r54(ctx, repo, m):
         while id(n) not in body_idx:
             n = n.parent
         return body_idx[id(n)]
+    xin = [s for s in xdefs if top_idx(s) < body_idx[id(m.split)]]
+    if not xin:
+        raise AnalysisError("get_emodulus: the abscissa is not bound before "
+                            "the route split")
     ok = body_idx[id(px)] < body_idx[id(m.split)] and not early and all(
-        top_idx(s) < body_idx[id(px)] for s in xdefs)
+        top_idx(s) < body_idx[id(px)] for s in xin)
     ctx.ob("R5.4", ok,
            "the correction uses the unscaled abscissa: it runs after the "
            "inputs are copied and before the route split where all scaling "
@@ -1591,10 +1660,9 @@ def r55(ctx, repo, m, x4):
         else:
             ydef = [s for s in m.routeA if isinstance(s, ast.Assign)
                     and txt(s.targets[0]) == yd]
-            okx = xd == x4 and len(ydef) == 1 and isinstance(
-                ydef[0].value, ast.Call) and call_name(
-                ydef[0].value) == "np.array" and txt(
-                ydef[0].value.args[0]) == "deform"
+            okx = xd == x4 and len(ydef) == 1 and "deform" in names_in(
+                ydef[0].value) and not names_in(ydef[0].value) & {
+                    "area_um", "volume", getattr(m, "xv", None), x4}
         ctx.ob("R5.5", okx,
                f"the query points are (abscissa `{xd}`, corrected "
                f"deformation `{yd}`)" if okx else
@@ -2069,6 +2137,311 @@ def r57(ctx, repo):
     ctx.stat("R5.7 models with per-medium tables", n_models)
 
 
+# ----------------------------------------------------------------------
+# R5.8 – medium aliases (module-level tables folded by interpretation)
+
+class _Fold:
+    """interpreter for the module-level construction of literal tables
+    (dict / list / str values, loops, comprehensions, subscript stores,
+    update/append/setdefault); anything else is an analysis error"""
+
+    def __init__(self, what):
+        self.what = what
+        self.steps = 0
+
+    def fail(self, node):
+        raise AnalysisError(f"{self.what}: cannot fold `{short(node, 50)}`")
+
+    def ev(self, e, env):
+        self.steps += 1
+        if self.steps > 200000:
+            raise AnalysisError(f"{self.what}: folding does not terminate")
+        if isinstance(e, ast.Constant):
+            return e.value
+        if isinstance(e, ast.Name):
+            if e.id in env:
+                return env[e.id]
+            self.fail(e)
+        if isinstance(e, ast.Dict):
+            if any(k is None for k in e.keys):
+                self.fail(e)
+            return {self.ev(k, env): self.ev(v, env)
+                    for k, v in zip(e.keys, e.values)}
+        if isinstance(e, ast.List):
+            return [self.ev(x, env) for x in e.elts]
+        if isinstance(e, ast.Tuple):
+            return tuple(self.ev(x, env) for x in e.elts)
+        if isinstance(e, ast.Set):
+            return {self.ev(x, env) for x in e.elts}
+        if isinstance(e, ast.Subscript) and not isinstance(
+                e.slice, ast.Slice):
+            try:
+                return self.ev(e.value, env)[self.ev(e.slice, env)]
+            except (KeyError, IndexError, TypeError):
+                self.fail(e)
+        if isinstance(e, ast.BinOp) and isinstance(e.op, ast.Add):
+            try:
+                return self.ev(e.left, env) + self.ev(e.right, env)
+            except TypeError:
+                self.fail(e)
+        if isinstance(e, ast.IfExp):
+            return self.ev(e.body if self.ev(e.test, env) else e.orelse, env)
+        if isinstance(e, ast.BoolOp):
+            vals = [self.ev(v, env) for v in e.values]
+            return all(vals) if isinstance(e.op, ast.And) else any(vals)
+        if isinstance(e, ast.UnaryOp) and isinstance(e.op, ast.Not):
+            return not self.ev(e.operand, env)
+        if isinstance(e, ast.Compare) and len(e.ops) == 1:
+            a, b = self.ev(e.left, env), self.ev(e.comparators[0], env)
+            op = e.ops[0]
+            try:
+                if isinstance(op, ast.Eq):
+                    return a == b
+                if isinstance(op, ast.NotEq):
+                    return a != b
+                if isinstance(op, ast.In):
+                    return a in b
+                if isinstance(op, ast.NotIn):
+                    return a not in b
+            except TypeError:
+                pass
+            self.fail(e)
+        if isinstance(e, (ast.ListComp, ast.SetComp, ast.GeneratorExp,
+                          ast.DictComp)):
+            out = []
+
+            def gen(i, env2):
+                if i == len(e.generators):
+                    if isinstance(e, ast.DictComp):
+                        out.append((self.ev(e.key, env2),
+                                    self.ev(e.value, env2)))
+                    else:
+                        out.append(self.ev(e.elt, env2))
+                    return
+                g = e.generators[i]
+                for item in self.iterate(self.ev(g.iter, env2), g.iter):
+                    env3 = dict(env2)
+                    self.bind(g.target, item, env3)
+                    if all(self.ev(c, env3) for c in g.ifs):
+                        gen(i + 1, env3)
+            gen(0, dict(env))
+            if isinstance(e, ast.DictComp):
+                return dict(out)
+            if isinstance(e, ast.SetComp):
+                return set(out)
+            return out
+        if isinstance(e, ast.Call):
+            n = call_name(e)
+            args = [self.ev(a, env) for a in e.args]
+            if e.keywords:
+                self.fail(e)
+            try:
+                if n in ("list", "sorted", "set", "tuple", "dict", "len",
+                         "str") and len(args) <= 1:
+                    return {"list": list, "sorted": sorted, "set": set,
+                            "tuple": tuple, "dict": dict, "len": len,
+                            "str": str}[n](*args)
+                if isinstance(e.func, ast.Attribute):
+                    recv = self.ev(e.func.value, env)
+                    m = e.func.attr
+                    if isinstance(recv, str) and m in (
+                            "lower", "upper", "strip", "replace", "title",
+                            "casefold", "capitalize"):
+                        return getattr(recv, m)(*args)
+                    if isinstance(recv, dict) and m in ("keys", "values",
+                                                        "items", "get",
+                                                        "copy"):
+                        r = getattr(recv, m)(*args)
+                        return list(r) if m in ("keys", "values",
+                                                "items") else r
+            except (TypeError, ValueError):
+                pass
+            self.fail(e)
+        self.fail(e)
+
+    def iterate(self, v, node):
+        if isinstance(v, dict):
+            return list(v)
+        if isinstance(v, (list, tuple, set, str)):
+            return list(v) if not isinstance(v, set) else sorted(v)
+        self.fail(node)
+
+    def bind(self, target, value, env):
+        if isinstance(target, ast.Name):
+            env[target.id] = value
+        elif isinstance(target, (ast.Tuple, ast.List)) and isinstance(
+                value, (tuple, list)) and len(value) == len(target.elts):
+            for t, v in zip(target.elts, value):
+                self.bind(t, v, env)
+        elif isinstance(target, ast.Subscript) and not isinstance(
+                target.slice, ast.Slice):
+            try:
+                self.ev(target.value, env)[self.ev(target.slice, env)] = \
+                    value
+            except TypeError:
+                self.fail(target)
+        else:
+            self.fail(target)
+
+    def run(self, stmts, env):
+        for st in stmts:
+            if isinstance(st, ast.Assign):
+                v = self.ev(st.value, env)
+                for t in st.targets:
+                    self.bind(t, v, env)
+            elif isinstance(st, ast.AnnAssign) and st.value is not None:
+                self.bind(st.target, self.ev(st.value, env), env)
+            elif isinstance(st, ast.AugAssign) and isinstance(
+                    st.op, ast.Add) and isinstance(st.target, ast.Name):
+                env[st.target.id] = self.ev(ast.BinOp(
+                    left=ast.Name(id=st.target.id, ctx=ast.Load()),
+                    op=ast.Add(), right=st.value), env)
+            elif isinstance(st, ast.For) and not st.orelse:
+                for item in self.iterate(self.ev(st.iter, env), st.iter):
+                    self.bind(st.target, item, env)
+                    self.run(st.body, env)
+            elif isinstance(st, ast.If):
+                self.run(st.body if self.ev(st.test, env) else st.orelse,
+                         env)
+            elif isinstance(st, ast.Expr) and isinstance(
+                    st.value, ast.Call) and isinstance(
+                    st.value.func, ast.Attribute):
+                c = st.value
+                recv = self.ev(c.func.value, env)
+                args = [self.ev(a, env) for a in c.args]
+                m = c.func.attr
+                try:
+                    if isinstance(recv, dict) and m in ("update",
+                                                        "setdefault", "pop"):
+                        getattr(recv, m)(*args)
+                    elif isinstance(recv, list) and m in (
+                            "append", "extend", "sort", "remove", "insert"):
+                        getattr(recv, m)(*args)
+                    elif isinstance(recv, set) and m in ("add", "update",
+                                                         "discard"):
+                        getattr(recv, m)(*args)
+                    else:
+                        self.fail(st)
+                except (TypeError, ValueError, KeyError):
+                    self.fail(st)
+            elif isinstance(st, ast.Expr) and isinstance(
+                    st.value, ast.Constant):
+                continue
+            elif isinstance(st, ast.Pass):
+                continue
+            else:
+                self.fail(st)
+
+
+def fold_tables(repo, rel, wanted):
+    """values of the module-level names `wanted` after interpreting the
+    module-level statements that build them"""
+    tree = repo.tree(rel)
+    tracked = set(wanted)
+    # names the construction depends on (fixpoint over module statements)
+    changed = True
+    sel = []
+    while changed:
+        changed = False
+        sel = []
+        for st in tree.body:
+            if isinstance(st, (ast.FunctionDef, ast.ClassDef, ast.Import,
+                               ast.ImportFrom, ast.AsyncFunctionDef)):
+                continue
+            stored = {n.id for n in ast.walk(st) if isinstance(n, ast.Name)
+                      and isinstance(n.ctx, (ast.Store, ast.Del))}
+            mutated = set()
+            for n in ast.walk(st):
+                if isinstance(n, ast.Subscript) and isinstance(
+                        n.ctx, ast.Store) and isinstance(n.value, ast.Name):
+                    mutated.add(n.value.id)
+                if isinstance(n, ast.Call) and isinstance(
+                        n.func, ast.Attribute) and isinstance(
+                        n.func.value, ast.Name) and n.func.attr in (
+                        "update", "append", "extend", "setdefault", "add",
+                        "pop", "sort", "remove", "insert", "discard"):
+                    mutated.add(n.func.value.id)
+            if (stored | mutated) & tracked:
+                sel.append(st)
+                new = {n.id for n in ast.walk(st) if isinstance(n, ast.Name)
+                       } - tracked - {"list", "sorted", "set", "tuple",
+                                      "dict", "len", "str"}
+                # comprehension / loop variables are bound inside
+                if new:
+                    tracked |= new
+                    changed = True
+    fold = _Fold(rel.rsplit("/", 1)[-1])
+    env = {}
+    fold.run(sel, env)
+    miss = [w for w in wanted if w not in env]
+    if miss:
+        raise AnalysisError(f"{rel}: module-level tables {miss} not built")
+    return env
+
+
+def r58(ctx, repo):
+    env = fold_tables(repo, VISC, ["SAME_MEDIA", "ALIAS_MEDIA",
+                                   "KNOWN_MEDIA"])
+    same, alias, known = env["SAME_MEDIA"], env["ALIAS_MEDIA"], env[
+        "KNOWN_MEDIA"]
+    if not (isinstance(same, dict) and isinstance(alias, dict) and same
+            and all(isinstance(v, list) for v in same.values())):
+        raise AnalysisError("viscosity: SAME_MEDIA / ALIAS_MEDIA shape")
+    ctx.stat("R5.8 folded aliases", len(alias))
+    node = repo.module_assign(VISC, "ALIAS_MEDIA")
+    for canon, names in same.items():
+        bad = []
+        for a in names:
+            for spelled in dict.fromkeys([a, a.lower()]):
+                got = alias.get(spelled, None)
+                if got != canon:
+                    bad.append((spelled, got))
+        ok = not bad and canon in names
+        ctx.ob("R5.8", ok,
+               f"every spelling of '{canon}' ({len(names)} names and their "
+               "lower-case forms) resolves to it" if ok else
+               (f"'{bad[0][0]}' resolves to {bad[0][1]!r} instead of "
+                f"'{canon}' ({len(bad)} of {2 * len(names)} spellings are "
+                "wrong): the viscosity of another medium is used" if bad
+                else f"'{canon}' is not among its own aliases"),
+               node=node, key=f"{VISC}::ALIAS_MEDIA::aliases of {canon}")
+    stray = sorted(k for k, v in alias.items()
+                   if v not in same or k.lower() not in {
+                       a.lower() for a in same[v]})
+    ctx.ob("R5.8", not stray,
+           "every alias maps to the medium it is listed under (up to case)"
+           if not stray else
+           f"alias '{stray[0]}' maps to '{alias[stray[0]]}', under which it "
+           "is not listed", node=node,
+           key=f"{VISC}::ALIAS_MEDIA::no stray alias")
+    ok = sorted(known) == sorted(alias) and len(set(known)) == len(known)
+    ctx.ob("R5.8", ok,
+           "KNOWN_MEDIA is exactly the set of resolvable names" if ok else
+           "KNOWN_MEDIA differs from the keys of ALIAS_MEDIA: "
+           + (f"{sorted(set(alias) - set(known))[:3]} are rejected"
+              if set(alias) - set(known) else
+              f"{sorted(set(known) - set(alias))[:3]} pass the check and "
+              "raise KeyError"), node=repo.module_assign(VISC, "KNOWN_MEDIA"),
+           key=f"{VISC}::KNOWN_MEDIA::equals alias keys")
+    gv = repo.func(VISC, "get_viscosity")
+    res = [n for n in gv.body if isinstance(n, ast.Assign) and txt(
+        n.targets[0]) == "medium" and txt(n.value) in (
+        "ALIAS_MEDIA[medium]", "ALIAS_MEDIA.get(medium)")]
+    chk = [n for n in gv.body if isinstance(n, ast.If) and "KNOWN_MEDIA"
+           in names_in(n.test) and any(isinstance(x, ast.Raise)
+                                       for x in n.body)]
+    disp = [i for i, n in enumerate(gv.body) if isinstance(n, ast.If)
+            and names_in(n.test) == {"medium"}]
+    ok = len(res) == 1 and bool(chk) and bool(disp) and gv.body.index(
+        res[0]) < disp[0]
+    ctx.ob("R5.8", ok,
+           "get_viscosity rejects unknown names and resolves the alias "
+           "before it dispatches on the medium" if ok else
+           "get_viscosity does not resolve the medium through ALIAS_MEDIA "
+           "before dispatching", node=res[0] if res else gv,
+           label="alias resolved before dispatch")
+
+
 def run(ctx):
     repo = ctx.repo
     ctx.rule("R5.1", "every in-place operation of get_emodulus acts on a "
@@ -2093,10 +2466,15 @@ def run(ctx):
              "are strictly monotone in the MC concentration (hence pairwise "
              "distinct) and a constant used twice denotes the same quantity "
              "in every branch", minimum=4)
+    ctx.rule("R5.8", "medium aliases (module-level tables folded by "
+             "interpretation): every spelling resolves to the medium it is "
+             "listed under, KNOWN_MEDIA = resolvable names, resolved before "
+             "the dispatch", minimum=7)
     m = Model(repo)
     r51(ctx, repo, m)
     r56(ctx, repo)
     r57(ctx, repo)
+    r58(ctx, repo)
     r52(ctx, repo)
     x4 = r53(ctx, repo, m)
     r54(ctx, repo, m)
@@ -2154,6 +2532,38 @@ MUTANTS = [
      ("        a = 5.70e-6\n", "        a = 2.30e-6\n"), "R5.7"),
     ("herold: exponent not updated for the second medium", VISC,
      ("**(0.634 - 1)", "**(0.677 - 1)"), "R5.7"),
+    ("abscissa aliased, per-event route through a helper that can "
+     "return its argument", EM,
+     [("        datax = np.array(area_um, dtype=float, copy=copy)",
+       "        datax = np.asarray(area_um, dtype=float)"),
+      ("        datax_4lut = scale_feature(feat=featx, data=datax, "
+       "**scale_kw)\n",
+       "        datax_4lut = _to_lut_width(datax, channel_width,\n"
+       "                                   lut_meta[\"channel_width\"])\n"),
+      ("        scale_emodulus(lut[:, 2], **scale_kw)\n",
+       "        scale_emodulus(lut[:, 2], **scale_kw)\n"
+       "        datax = np.array(datax, copy=copy)\n"),
+      ("def normalize(data, dmax):",
+       "def _to_lut_width(data, w_in, w_out):\n"
+       "    if w_in == w_out:\n        return data\n"
+       "    return data * (w_out / w_in)**2\n\n\n"
+       "def normalize(data, dmax):")], "R5.1"),
+    ("lower-case aliases built with the leftover loop variable "
+     "(seeded C05_8)", VISC,
+     ("        ALIAS_MEDIA[item] = key\n"
+      "        ALIAS_MEDIA[item.lower()] = key  # also support all-lower "
+      "case\n",
+      "        ALIAS_MEDIA[item] = key\n"
+      "ALIAS_MEDIA.update({item.lower(): key for item in "
+      "list(ALIAS_MEDIA)})\n"), "R5.8"),
+    ("lower-case aliases map to themselves", VISC,
+     ("        ALIAS_MEDIA[item.lower()] = key  # also",
+      "        ALIAS_MEDIA[item.lower()] = item  # also"), "R5.8"),
+    ("only canonical names are known media", VISC,
+     ("KNOWN_MEDIA = sorted(ALIAS_MEDIA.keys())",
+      "KNOWN_MEDIA = sorted(SAME_MEDIA.keys())"), "R5.8"),
+    ("alias not resolved before the dispatch", VISC,
+     ("    medium = ALIAS_MEDIA[medium]\n\n", "\n"), "R5.8"),
     ("scale functions invert the inplace flag", SCALE,
      ("    copy = not inplace\n    if issubclass(area_um.dtype.type",
       "    copy = inplace\n    if issubclass(area_um.dtype.type"), "R5.1"),
@@ -2318,6 +2728,19 @@ TWINS = [
       '    term2 = 0.6771 / 0.5928 + 0.2121 / (0.5928 * flow_index)\n'
       '    eta = consistency * (term1 * term2)**(flow_index - 1) * temp_corr'
       ' * 1e3\n')),
+    ("alias table built from items() with a comprehension for the "
+     "lower-case forms", VISC,
+     ("for key in SAME_MEDIA:\n    for item in SAME_MEDIA[key]:\n"
+      "        ALIAS_MEDIA[item] = key\n"
+      "        ALIAS_MEDIA[item.lower()] = key  # also support all-lower "
+      "case\n",
+      "for key, items in SAME_MEDIA.items():\n"
+      "    ALIAS_MEDIA.update({item: key for item in items})\n"
+      "    ALIAS_MEDIA.update({item.lower(): key for item in items})\n")),
+    ("deformation copy passed through asarray", EM,
+     ("        deform_4lut = np.array(deform, dtype=float, copy=copy)",
+      "        deform_4lut = np.asarray(np.array(deform, dtype=float,\n"
+      "                                          copy=copy))")),
     ("area law written with explicit squares", SCALE,
      ("area_um_corr *= (channel_width_out / channel_width_in)**2",
       "area_um_corr *= channel_width_out * channel_width_out / "
